@@ -127,7 +127,7 @@ func runKvSequence(ops []kvOp, seq int, backends []string, out *ndw, kinds map[s
 					err = store.SetLock(uint8(o.T), o.B)
 				case "put":
 					err = store.Put(ctx, []byte(o.K), []byte(o.V))
-					if err == nil {
+					if err == nil && o.V != "" {
 						provs[o.V] = prov{curT, curS}
 					}
 				case "get":
@@ -251,6 +251,8 @@ func cmdKvRandom(args []string) error {
 				v := fmt.Sprintf("v%d", nv)
 				if rng.Intn(4) == 0 {
 					v = fmt.Sprintf("\x00\xff%d\n", nv) // binary value
+				} else if rng.Intn(8) == 0 {
+					v = "" // the empty value is a value
 				}
 				ops = append(ops, kvOp{Op: "put", K: keys[rng.Intn(len(keys))], V: v})
 			case r < 94:
